@@ -27,6 +27,7 @@ THEOREMS = {
         "Dawgs.C06.Sites.alias_key_fallback_sites_known",
         "Dawgs.C06.Sites.alias_key_nonuser_are_fallbacks",
         "Dawgs.C06.Sites.fallback_sites_bounded",
+        "Dawgs.C06.Sites.alias_keys_user_only",
     ],
 }
 
@@ -34,6 +35,61 @@ KEYS = {
     "ns-collision": "C06:Scope.aliases:parameter-variable-namespace-collision",
     "gen-id-captured-by-path-variable": "C06:pathCompositeBinding:pruned-generated-id-captured-by-path-variable",
     "user-name-in-inner-sql:AggregateTraversalCount": "C06:aggregateTraversalCount:user-alias-as-inner-column",
+}
+
+
+REMAINING_KNOWN = "C06:aggregateTraversalCount:user-alias-as-inner-column"
+
+# clause of the statement (properties.jsonl, C06) -> what proves it FOR ALL inputs, with the hypotheses carried | what is only searched
+CLAUSES = {
+    "scope: user spellings never become translator names (generated identifiers are fresh; no user spelling is a key of definitions; "
+    "alias targets pairwise distinct)":
+        "fresh_ids, generated_names_never_user_keyed, alias_values_injective — every program of scope operations (= every reachable Scope), any key "
+        "type incl. Go strings; no hypothesis. Generator tie: Sites.generator_matches_model (prefix/counter switch of NewIdentifier = model, kernel-checked "
+        "on the regenerated table)",
+    "scope: renaming to ANY legal names — incl. names the translator generates (n0 e0 s0 i0 pi0 path depth …) — changes no result":
+        "alias_only_lookup (hypothesis: the re-keying is injective ON THE SYMBOLS THE PROGRAM MENTIONS) => scope_renaming_fixed = c06_full "
+        "(def C06_full; hypotheses: the variable renaming and the parameter renaming are each injective — exactly the quantifier's 'injective "
+        "renamings'; names are arbitrary strings, so generated identifiers and keywords are included; no freshness or disjointness hypothesis)",
+    "scope: … incl. names equal to each other ACROSS the variable / parameter namespaces":
+        "c06_full for the LIVE scope (keys tagged by namespace: parameters have their own alias table since /repo 10646d6) + "
+        "Sites.parameter_path_separate (the translator's parameter case uses only the parameter table). For the OLD shared table the clause is "
+        "REFUTED: c06_full_refuted_old, f10_results_old (witness MATCH (n) WHERE n.name = $n RETURN n); only scope_renaming_partial_old held "
+        "(extra hypotheses NsDisjoint before and after the renaming); shared_eq_live_of_disjoint_old relates the two. F10 is fixed; corpus cases guard it",
+    "scope: never turns a successful lookup / definition into an error":
+        "c06_full: `results` lists every outcome incl. failed lookups, nil parameters and errors, and the whole list is invariant",
+    "tie (kernel-checked table, regenerated every run): the translator reaches the Scope only in the modelled ways":
+        "Sites.user_ids_only_via_aliased_lookup, alias_after_fresh_define, define_only_constants, no_user_generated_comparison (no comparison of a "
+        "user-derived string with a generated identifier anywhere in translate/), alias_keys_user_only (NEW: def C06_sites_full is now a THEOREM — no "
+        "AliasedLookup / aliases[] key that is not purely user-derived; the seven historical Lookup-then-AliasedLookup fallbacks are gone), "
+        "alias_key_fallback_sites_known, alias_key_nonuser_are_fallbacks, fallback_sites_bounded (older, weaker guards), table_nonempty. "
+        "Trusted step: the go/ast provenance classification of tools/extract/goext c06",
+    "whole translator, AST level: only output column aliases and parameter-map keys change":
+        "SEARCHED ONLY: metamorphic renaming on the real translate.Translate, 9 renaming kinds (fresh, translator, cross, keywords, case, swap, "
+        "probe, sys = every symbol onto the generated identifiers the translation actually used / uses next, escaped) x corpus + generated "
+        "queries; SQL compared with outermost projection aliases masked, result parameters compared modulo the key renaming",
+    "whole translator, TOKEN level: the rest of the statement is untouched":
+        "SEARCHED ONLY: both unmasked statements lexed by harness/pglex.go (PostgreSQL token classes); same token sequence, identifier tokens "
+        "may differ only as (value of x, value of renamed x); escaped names with quotes, backslashes, control characters, U+200B, non-BMP, "
+        "63/64-byte names, keywords and back-ticked generated identifiers",
+    "whole translator: never turns a translatable query into an error or a crash":
+        "SEARCHED ONLY: both translations under recover; status must agree (class ok / err alike), a panic of either side is a violation",
+    "refuted instance (the property is FALSE on the current tree here)":
+        REMAINING_KNOWN + " (known_findings.json status known; replay corpus/C06/c06_aggregate_traversal_count_alias.ops): "
+        "`… WITH n, count(c) AS adminCount RETURN n ORDER BY adminCount` — the AggregateTraversalCount lowering writes the user's alias verbatim "
+        "as an INNER CTE column, so the statement changes with the spelling and spellings like root_id / select give invalid SQL. Outside the "
+        "Scope (the alias is copied out of BoundIdentifier.Alias), hence no contradiction with c06_full; found by the search, suppressed by exact "
+        "key only. hooks/C06-fix2.patch repairs it but edits golden SQL / test expectations, so it is a PROPOSAL, not landed",
+    "searched only (tie)":
+        "that Model/C06.lean is what translate/tracking.go does: scope trace hook (every traced translation's operations replayed through the "
+        "Lean Scope in Driver/C06, state digests compared op by op) — present only when hooks/C06.patch is in the tree (it is: /repo ee166ed); "
+        "that the seven binding patterns are ALL the ways the 22k-line translator composes scope operations; everything the translator does "
+        "with names outside the Scope (column lists, CTE names, BoundIdentifier.Alias copies, format/ quoting) rests on the metamorphic search",
+    "named assumptions":
+        "renamings are applied to the parsed model (cypher.Variable / Parameter symbols incl. projection aliases), the parser's treatment of "
+        "spellings is C07/C08; 'legal name' = any Go string at the scope level, the escaped alphabet + 8 other kinds in the search; "
+        "PostgreSQL's lexer is modelled by harness/pglex.go (unverified Go, same token classes as C04's Lean lexer); identifier truncation "
+        "at 63 bytes by the server is not modelled (64-byte names are compared as written)",
 }
 
 
@@ -94,6 +150,11 @@ def model_view(model):
 def extra_coverage(ctx, stats):
     traced = stats.get("traced_translations", 0)
     return {
+        "clause_map": CLAUSES,
+        "full_statement": "def Dawgs.C06.Props.C06_full (proved: c06_full); def Dawgs.C06.Sites.C06_sites_full (proved: alias_keys_user_only); "
+                          "def C06_full_old (refuted: c06_full_refuted_old)",
+        "stated_goals_not_proved": [],
+        "refuted_instances_on_the_live_tree": [REMAINING_KNOWN],
         "traces_validated_against_impl": traced,
         "scope_trace_hook": "present" if traced else "absent (hooks/C06.patch not applied to the tree under test): the Lean scope model is tied by the "
                             "regenerated access-site table (Props/C06Sites) and the metamorphic runs only",
@@ -115,7 +176,7 @@ SPEC = {
     "panic_is_violation": True,
     "rule": "cases = (query, renaming): every Cypher text of the repository corpora (translation_cases/*.sql with their cypher_params, cypher/test/cases/*.json) and "
             "generated queries (structured generator over MATCH/OPTIONAL MATCH/UNWIND/WITH/RETURN/ORDER BY/SKIP/LIMIT/quantifiers/paths/updates, 400 quick, 2x4500 thorough) "
-            "x 7 renaming kinds of ALL user variables+aliases and parameters applied to the parsed model: fresh names; translator names (n0 e0 s0 i0 pi0 ep0 path depth "
+            "x 9 renaming kinds of ALL user variables+aliases and parameters applied to the parsed model: fresh names; translator names (n0 e0 s0 i0 pi0 ep0 path depth "
             "root_id next_id satisfied is_cycle _kind_idx, column names, ...); cross-namespace collisions (a parameter spelled like a variable and vice versa); SQL keywords; "
             "spellings differing only in case; permutation of the query's own names; probe (one variable takes the spelling of a generated identifier that occurs in the "
             "original translation); sys (once per query, plus 12 re-aliasing shapes): the query is translated first, the generated identifier every user variable / alias / "
@@ -132,26 +193,38 @@ SPEC = {
                      "the metamorphic oracle in harness/c06.go (renaming by reflection over the cypher model, alias masking on the pgsql AST)",
                      "harness/pglex.go, a Go PostgreSQL lexer with the token classes of the Lean lexer of C04 (token-level half of the oracle)",
                      "the transcription Model/C06.lean of translate/tracking.go (tied op-by-op to the real Scope only when hooks/C06.patch is applied)"],
-    "assumptions": ["Lean theorems are about the Scope and the seven patterns in which the translator uses it; the rest of the translator (22k lines) is covered by the metamorphic search only",
+    "assumptions": ["Lean theorems are about the Scope and the seven patterns in which the translator uses it; the rest of the translator (22k lines) is covered by the metamorphic search only (clause_map)",
                     "renamings are applied to the parsed model (cypher.Variable / cypher.Parameter symbols incl. projection aliases); the parser's handling of unusual spellings is C07/C08"],
     "extra_coverage": extra_coverage,
-    "explanation": "proof on the scope model + metamorphic search on the real translator",
+    "explanation": "Proved in Lean for every program of scope operations and every pair of injective renamings (no other hypothesis): renaming invariance of the "
+                   "identifier Scope incl. generated names and cross-namespace collisions (c06_full); kernel-checked on the regenerated access-site table: the translator "
+                   "reaches the Scope only in the modelled ways and no alias key is anything but user-derived (alias_keys_user_only = C06_sites_full, newly a theorem). "
+                   "Searched only: the statement for the whole translator, at AST and token level, and error/crash parity. One refuted instance remains "
+                   "(aggregate traversal count alias, known finding). See coverage.clause_map.",
 }
 
 MANIFEST = {
     "category": "proof",
     "technique": "Lean 4 proof of renaming invariance of the identifier scope (all operation sequences; re-keying commutation + generated-name invariant) "
-                 "with the shared-table defect refuted by witness, kernel-checked side conditions on a regenerated table of scope accesses, "
-                 "and a metamorphic renaming search on the real translator",
-    "text": "Lean: for every sequence of scope operations the translator can issue (DefineNew, Alias / AliasParameter after DefineNew, AliasedLookup, ParameterLookup, Lookup, "
-            "frames, PruneDefinitions and the seven binding patterns of pattern.go/translator.go/unwind.go/projection.go/with.go/quantifiers.go) generated identifiers are fresh, "
-            "no user spelling is ever a key of definitions, alias targets are pairwise distinct, and every result is invariant under any re-keying of user symbols that is "
-            "injective on the symbols in play (alias_only_lookup). Hence FULL renaming invariance holds for the live scope, whose parameters have their own alias table "
-            "(scope_renaming_fixed / c06_full); for the old shared table only the partial statement holds and the full one is refuted (…_old theorems = F10). The regenerated "
-            "access-site table proves that user-derived identifiers reach definitions only through AliasedLookup / ParameterLookup, that the parameter case of the translator uses "
-            "only the parameter table (parameter_path_separate) and pins the seven Lookup-then-AliasedLookup fallbacks. The rest of the translator is searched: every corpus and "
-            "generated query x 7 adversarial renaming kinds must give the same SQL up to output aliases.",
-    "note": "Proof level applies to the scope model; translator code outside the scope is covered by search only (partial). F10 (parameter/variable shared alias table) is fixed "
-            "(entry status fixed); two renaming sensitivities remain known with specific keys (user alias emitted as an inner CTE column by the aggregate traversal "
-            "count lowering; path variable spelled like a pruned generated identifier captured by pathCompositeBinding). Trusted: Lean kernel, extractor, harness oracle.",
+                 "with the old shared-table defect refuted by witness, kernel-checked side conditions on a regenerated table of scope accesses, scope trace replay, "
+                 "and a metamorphic renaming search (AST and token level) on the real translator",
+    "text": "PROVED (Lean, all inputs): for every sequence of scope operations the translator can issue (DefineNew, Alias / AliasParameter after DefineNew, AliasedLookup, "
+            "ParameterLookup, Lookup, frames, PruneDefinitions and the seven binding patterns of pattern.go / translator.go / unwind.go / projection.go / with.go / "
+            "quantifiers.go) generated identifiers are fresh, no user spelling is ever a key of definitions, alias targets are pairwise distinct, and every result — "
+            "identifiers, lookups, errors — is invariant under any re-keying that is injective on the symbols in play (alias_only_lookup). Hence, with the ONLY hypotheses "
+            "that the variable renaming and the parameter renaming are each injective, full renaming invariance of the live scope, names equal to generated identifiers "
+            "and cross-namespace collisions included (c06_full; parameters have their own alias table). For the old shared table the statement is refuted "
+            "(c06_full_refuted_old = F10, fixed) and holds only under a disjointness hypothesis (scope_renaming_partial_old). KERNEL-CHECKED on the access-site table "
+            "regenerated every run: user-derived identifiers reach definitions only through AliasedLookup / ParameterLookup, the parameter case uses only the parameter "
+            "table, no user string is compared with a generated identifier, and — new — NO alias key is anything but user-derived (alias_keys_user_only: the "
+            "Lookup-then-AliasedLookup fallbacks are gone, C06_sites_full is a theorem). SEARCHED ONLY: the statement for the whole translator — every corpus and "
+            "generated query x 9 adversarial renaming kinds (incl. each symbol onto the generated identifiers its own translation uses, and back-tick escaped names) "
+            "must give the same SQL up to output aliases at AST level AND the same PostgreSQL token sequence up to renamed identifier tokens, the same parameters up to "
+            "keys, and the same ok/error status; panics are violations. ONE REFUTED INSTANCE remains on the tree: the aggregate traversal count lowering emits the "
+            "user's WITH alias as an inner CTE column (known finding, replay in corpus/C06).",
+    "note": "Proof level applies to the Scope and to the table-checked ways the translator reaches it; the rest of the translator is search only (coverage.clause_map says "
+            "which clause rests on what). Findings of this check: F10 shared alias table (fixed, 10646d6), path "
+            "variable capturing a pruned generated identifier through the lookup fallback (fixed, e63912b); still known: "
+            "C06:aggregateTraversalCount:user-alias-as-inner-column (a repair exists as hooks/C06-fix2.patch but needs golden-file edits, so it is only proposed). "
+            "Trusted: Lean kernel, the go/ast site extractor, the harness oracle incl. its Go PostgreSQL lexer, the transcription of tracking.go (tied by trace replay).",
 }
